@@ -221,6 +221,11 @@ SimNext ==
 SimSpec == Init /\ [][SimNext]_vars
 
 View == <<s, done, bad>>
+(* Two histories that end in the same model state need not end in the same  *)
+(* implementation state when the code is wrong (a stale cache is invisible   *)
+(* to the model).  Configurations whose point is the history itself are run  *)
+(* with this view: no merging, TLC explores the full call tree.              *)
+ViewTree == <<s, path, done, bad>>
 NoBad == bad = ""
 
 EmitStep ==
